@@ -226,6 +226,54 @@ package main
 //@ ensures [C02,C13,C19,C20,C18] imp(!isT && !isD && ty == descriptor.FieldDescriptorProto_TYPE_MESSAGE, result1 == nil && same(result0, row(tObject, "")))
 //@ ensures [C18] imp(!isT && !isD && ty == descriptor.FieldDescriptorProto_TYPE_GROUP, result1 != nil)
 
+// ===================================================================== imports.go (C13, C01)
+
+// a Go type string splits into modifiers ([]* prefixes, map[string]) and the bare type name
+//@ func Imports.typAndMod
+//@ functional
+//@ ensures [C13,C01] result1 + result0 == t
+//@ ensures [C13,C01] !strcontains(result0, "[") && !strcontains(result0, "]") && !strcontains(result0, "*")
+//@ ensures [C13,C01] imp(result1 != "", suffix(result1, "[") || suffix(result1, "]") || suffix(result1, "*"))
+
+// the part of a type expression before a call's argument list
+//@ func Imports.typBeforeBracket
+//@ functional
+//@ ensures [C13] result == ite(indexof(typ, "(") >= 0, typ[0:indexof(typ, "(")], typ)
+//@ ensures [C13] prefix(typ, result) && !strcontains(result, "(")
+
+//@ func Imports.isBuiltinType
+//@ functional
+//@ ensures [C13] result == (t == "bool" || t == "string" || t == "int" || t == "int8" || t == "int16" || t == "int32" || t == "int64" || t == "uint" || t == "uint8" || t == "uint16" || t == "uint32" || t == "uint64" || t == "uintptr" || t == "byte" || t == "rune" || t == "float32" || t == "float64" || t == "complex64" || t == "complex128")
+
+//@ define qualOf(i, path) = ite(has(i.qualifiers, path), i.qualifiers[path].Name(), i.pluginImports.NewImport(ite(has(i.importPathOverrides, path), i.importPathOverrides[path], path)).Name())
+//@ define qualified(i, typ, mod) = mod + qualOf(i, typ[0:strings.LastIndex(i.typBeforeBracket(typ), ".")]) + "." + typ[strings.LastIndex(i.typBeforeBracket(typ), ".")+1:len(typ)]
+//@ define cacheOK(i, typ) = imp(has(i.qualifiers, typ[0:strings.LastIndex(i.typBeforeBracket(typ), ".")]), i.qualifiers[typ[0:strings.LastIndex(i.typBeforeBracket(typ), ".")]] != nil)
+
+// <mod><qualifier>.<Name>: the package part (everything before the last dot outside a call's
+// argument list) is replaced by the import qualifier; import_path_overrides are honoured
+//@ func Imports.appendQual
+//@ requires i.pluginImports != nil && i.qualifiers != nil && strcontains(i.typBeforeBracket(typ), ".") && cacheOK(i, typ)
+//@ modifies i.qualifiers[_]
+//@ ensures [C13,C01] result == old(qualified(i, typ, mod))
+
+//@ func Imports.WithType
+//@ requires i.pluginImports != nil && i.qualifiers != nil && cacheOK(i, first(i.typAndMod(t)))
+//@ define typ0 = first(i.typAndMod(t))
+//@ define mod0 = second(i.typAndMod(t))
+//@ modifies i.qualifiers[_]
+//@ ensures [C13,C01] imp(!strcontains(i.typBeforeBracket(typ0), "."), result == t)
+//@ ensures [C13,C01] imp(strcontains(i.typBeforeBracket(typ0), "."), result == old(qualified(i, typ0, mod0)))
+
+// types of the struct package get the struct package's qualifier unless already qualified or builtin
+//@ func Imports.PrependPackageNameIfMissing
+//@ requires i.pluginImports != nil && i.qualifiers != nil && !strcontains(pkg, "(") && cacheOK(i, pkg + "." + first(i.typAndMod(t)))
+//@ define typ0 = first(i.typAndMod(t))
+//@ define mod0 = second(i.typAndMod(t))
+//@ define keep = strcontains(i.typBeforeBracket(typ0), ".") || pkg == "" || i.isBuiltinType(typ0)
+//@ modifies i.qualifiers[_]
+//@ ensures [C13,C01] imp(keep, result == t)
+//@ ensures [C13,C01] imp(!keep, result == old(qualified(i, pkg + "." + typ0, mod0)))
+
 // ===================================================================== message_build_context.go
 
 //@ func MessageBuildContext.GetGoType
